@@ -23,10 +23,14 @@ RULE = ('random portfolios of contracts (spread, time-varying capacities in all 
         'per case: independent textbook LP (scipy/HiGHS over physical quantities, built from the scenario only; a transport is a line with a forward and a backward part, each >= 0, each delivering efficiency x what is sent, costs per unit sent) vs eaopack optimum; eaopack dispatch mapped to physical quantities and checked against the textbook constraints; second set-up on the same objects; plus builder correspondence cases (contracts, storages); '
         'probe stream `reversed` (quick: 55 cases): a line with efficiency in (0,1) between two priced nodes, Transport or ExtendedTransport (takes), capacities <= 0 / of both signs (then without costs) / >= 0 as control, prices around the two thresholds at which the reversed flow pays, costs, window, wacc: '
         'a violation (value or dispatch) that disappears when the reference reproduces eaopack\'s factors for the reversed flow (-1 / +efficiency on one signed variable) carries the facts kind=reversed_transport_gain, transports, efficiency, eao_value, physical_value (finding F-02c); '
+        'stream `dst` (quick: 110 cases, up to a third of them also wrapped into a structured / scaled asset): the same asset classes on grids whose steps are whole calendar days (d, 1D, 2d, 3d, 7d, weekly with any anchor, 14d, 30d; main time unit h, d or min; start at local midnight or at 6/12/18/22 h) in twelve zones with daylight saving (Europe, North America incl. the half-hour offset of St. John\'s, Australia incl. the 30-minute change of Lord Howe, New Zealand, Morocco) placed so that a clock change (spring or autumn, sometimes two) falls into a randomly chosen step of the horizon - that step lasts 23 / 25 / 47 / 169 ... hours - with controls (UTC, Tokyo, no zone, horizon after the change); '
+        'small rates against a deep or a tight market, storage sizes / levels and take volumes of the order of one step\'s volume, take periods that cut the horizon (prorated), holding costs, inflow, wacc on more than half of the assets; the reference takes every step length, the prorated part of a take period and the discount exponents from the INSTANTS of the grid points (never from eaopack\'s dt), so limits rate x step length, prorated takes, holding costs per time and discounting are all compared on the short / long step; '
+        'a difference between eaopack\'s step lengths and the time between its grid points is attached to the value / dispatch violations it causes (fact step_lengths_differ) when the case itself shows none (nothing binds in that step), the statement is evaluated on the simplest portfolio of the SAME grid (comp/textbook.step_length_probe: deep market with wacc, free source of rate <= 1.5, optimum = sum of price x 1.5 x step length, discounted), whose violation carries the fact probe_of_step_lengths; only if that shows nothing either, the difference is reported on its own (what=step_length); '
         'non-trivial = solved with non-zero value and at least one non-market asset dispatched; distinct by case hash')
 ASSUMPTIONS = ['values compared with tolerance 2e-6 relative, constraints 1e-6; the reference LP is part of the trusted base of the oracle (not of the theorems)',
                'harness.gen.gen_transport draws 20 % of the transports with capacities [-c, 0] and, independently, an efficiency from {0.25, 0.5, 0.75, 0.875, 1, 1.5}; in the general streams (textbook, grouped, scaled) such a transport with a negative capacity is kept lossless (efficiency set to 1, comp/textbook.forward_or_lossless), because with a negative capacity and efficiency != 1 eaopack does not describe a physical line (known finding F-02c); reversed lossy lines are drawn by the probe stream `reversed` only; capacities of both signs occur only there and only without costs (eaopack refuses them with costs: NotImplementedError, "use two transport assets")',
                'reading of a transport: capacities bound the volume SENT per direction, costs are paid per unit sent, takes of an extended transport act on the net volume leaving the first node (forward sent minus backward delivered); for capacities >= 0 this is the documented forward reading',
+               'stream `dst`: the grid points themselves are those of pandas.date_range(start, end, freq) in the zone (a step of n days runs from a local wall-clock time to the same wall-clock time n days later), which is also what Timegrid documents; zones whose clock change removes local midnight (Santiago, Havana, Tehran, Azores) are not drawn, since pandas refuses to build such a grid; step lengths, covered parts of take periods and elapsed time for discounting are differences of instants (UTC), 365 days per year',
                'eaopack leaves the holding cost of the start level and of accumulated inflow out of its value (documented in the Storage docstring): V_eaopack = V_textbook + K with K computed from the parameters']
 EXPLANATION = 'textbook specification EAO/Spec/Textbook.lean (meant to be read); per-asset refinement theorems + composition theorem portfolio_refines; oracle: independent reference LP on the real code'
 
@@ -54,6 +58,16 @@ def scenarios(seed, tier):
     # probe: lines with losses whose capacities allow the flow from the second to the first node (finding F-02c)
     for i in range(n // 8):
         yield 'rv%d' % i, {'stream': 'reversed', 'case': TB.gen_reversed_case(random.Random(rnd.getrandbits(48)))}
+    # grids of whole-day steps in zones with daylight saving, a clock change inside the horizon (23 h / 25 h days)
+    for i in range(n // 4):
+        r1 = random.Random(rnd.getrandbits(48))
+        c = TB.gen_dst_case(r1)
+        item = {'stream': 'dst', 'case': c}
+        if i % 6 == 5:
+            item['group'] = _grouping(c, r1)
+        elif i % 6 == 2:
+            item['group'] = _scaling(c, r1)
+        yield 'dg%d' % i, item
     # the same kind of portfolio through the other doors of the package (io.optimize with the data in several containers,
     # run_from_json, set_param): comp/entry.py
     from ..comp import entry as EN
@@ -125,7 +139,7 @@ def run_case(c, drv):
         # textbook stream compares with the reference
         from ..comp import entry as EN
         return EN.run_stream_case(c, ('entry_point',))
-    if c['stream'] == 'textbook' and c.get('group'):
+    if c['stream'] in ('textbook', 'dst') and c.get('group'):
         # the structure with window W around some assets = the flat portfolio with those assets' windows cut to W: the textbook
         # reference of the FLAT portfolio (checked as usual) is also the reference of the wrapped one
         from .. import pf, impl
@@ -151,7 +165,7 @@ def run_case(c, drv):
                                             'facts': {'what': 'value', 'wrapped': True, 'diff': float(rw['res'].value) - v_ref}})
             except Exception as e:
                 r['violations'].append({'oracle': 'textbook', 'detail': 'assets wrapped into a structured asset with its own window: %s: %s' % (type(e).__name__, str(e)[:150]), 'facts': {'what': 'value', 'wrapped': True, 'error': impl.err_class(e)}})
-    elif c['stream'] in ('textbook', 'reversed'):
+    elif c['stream'] in ('textbook', 'reversed', 'dst'):
         r = TB.run_case(c['case'], drv)
         if c['stream'] == 'reversed':
             r.setdefault('features', []).append('reversed:%s' % c['case'].get('probe', {}).get('direction'))
